@@ -29,7 +29,9 @@ def all_headers():
     return sorted(hs)
 
 
-def dump(tu_text, workdir, name, filt="PhQ", extra_flags=()):
+def dump(tu_text, workdir, name, filt="PhQ", extra_flags=(), tolerate=None):
+    """tolerate: list that receives clang's error lines instead of raising (the AST is still dumped;
+    declarations clang marks invalid are not lowered and are reported as outside the subset)."""
     os.makedirs(workdir, exist_ok=True)
     src = os.path.join(workdir, name + ".cpp")
     out = os.path.join(workdir, name + ".json")
@@ -39,11 +41,14 @@ def dump(tu_text, workdir, name, filt="PhQ", extra_flags=()):
            "-Xclang", "-ast-dump=json"]
     if filt:
         cmd += ["-Xclang", "-ast-dump-filter=" + filt]
-    cmd += list(extra_flags) + [src]
+    cmd += ["-ferror-limit=0"] + list(extra_flags) + [src]
     with open(out, "w") as fo:
         r = subprocess.run(cmd, stdout=fo, stderr=subprocess.PIPE, text=True)
     if r.returncode != 0:
-        raise AstError("clang failed on %s:\n%s" % (src, r.stderr[-4000:]))
+        errs = [l for l in r.stderr.split("\n") if " error: " in l]
+        if tolerate is None or not errs or os.path.getsize(out) < 1000:
+            raise AstError("clang failed on %s:\n%s" % (src, "\n".join(errs[:20]) or r.stderr[-3000:]))
+        tolerate.extend(errs)
     return out
 
 
